@@ -12,6 +12,13 @@ number of producers, operations, nesting depth or history length.
 Environment hypothesis (`opOK`, part of `Reach`): a producer object is registered on at most one
 subchannel at a time; `use_connection`/`stop_using_connection` alternate.  Without the first one
 the statement is false for the current code (`sets_partition_needs_distinct_producers`).
+Further hypotheses: an application *push* producer's `resumeProducing()` does not raise (`opOK .failWrite`; a
+*pull* producer's may — that is `PullToPush._pull`'s error path, `pull_failure_unregisters`); producers'
+`pauseProducing()` does not call back into `Outbound`.  The model identifies producers with ids and ends the loop of
+`Outbound.resumeProducing` exactly when nobody is paused; that the real loop tests `p is None` and not the truth
+value of the producer object is pinned by `resume_loop_ends_only_on_none` (before fix 129b6a1 it was `if not p`,
+and a registered producer whose truth value is False ended the loop without getting its turn — the witness is run on
+the real code by the harness, case kind `falsy`).
 -/
 namespace WV.Props.C15
 open WV WV.C15 WV.Proofs.C15
@@ -118,6 +125,38 @@ theorem turn_advances_others {c : Cfg} (h : Reach c) {k : List Frame} (hk : c.st
     · exact absurd h1.symm hne'
     · exact h1
   rw [hb, ha, List.idxOf_append_of_mem hqr, List.idxOf_cons_ne _ hne']
+
+/-- the error path of `PullToPush._pull`: when a pull producer's `resumeProducing()` raises — e.g.
+    `AlreadyClosedError`, because the application called `loseConnection()` on its subchannel without
+    unregistering the producer — the adapter registered on that subchannel is unregistered in the same
+    step: it leaves the rotation, both sets and the set of live adapters, so no later
+    `pauseProducing`/`resumeProducing` of `Outbound` can reach its finished `CooperativeTask`; nothing is
+    raised to the Cooperator, and (being a `Reach` step) all the invariants above keep holding.
+    That `_pull` treats every exception this way is pinned by `skeleton_agrees_pull`. -/
+theorem pull_failure_unregisters {c : Cfg} (h : Reach c) {sc p : Nat} {r : List Op} {k : List Frame}
+    (hk : c.stack = .pull sc (.failWrite :: r) :: k) (hl : c.o.scp.lookup sc = some p) :
+    (step c).stack = k ∧ p ∉ (step c).o.allp ∧ p ∉ (step c).o.pausedSet ∧ p ∉ (step c).o.unpausedSet ∧
+    p ∉ (step c).o.pulls ∧ (step c).o.scp.lookup sc = none ∧ (step c).log.head? = some (.unreg p) := by
+  have hi := reach_inv h
+  have hik : Inv { c with stack := k } := by
+    refine hi.frame rfl rfl rfl rfl rfl hi.o.connUnsent ?_ (Or.inl rfl)
+    intro hx; rw [hk] at hx
+    rcases List.mem_cons.1 hx with hx | hx
+    · cases hx
+    · exact hx
+  have hs : step c = pullFailed c sc k := by rw [step, hk]
+  rw [hs, pullFailed_spec c sc p k hik hl]
+  have hnd := hi.o.nodup
+  have hK := hi.o.scpK
+  unfold unregDrop unregPop
+  split
+  · refine ⟨rfl, ?_, by simp, by simp, by simp, ?_, rfl⟩
+    · simp only; rw [hnd.mem_erase_iff]; simp
+    · simp only; rw [List.lookup_eq_none_iff]; intro x hx; simp at hx; simp; exact fun e => hx.2 (Eq.symm e)
+  · refine ⟨rfl, ?_, by simp, by simp, ?_, ?_, rfl⟩
+    · simp only; rw [hnd.mem_erase_iff]; simp
+    · assumption
+    · simp only; rw [List.lookup_eq_none_iff]; intro x hx; simp at hx; simp; exact fun e => hx.2 (Eq.symm e)
 
 /-- the signal monitor accepts the whole history: a producer is never told `pauseProducing` twice
     in a row nor `resumeProducing` twice in a row, the first signal after a registration is never
@@ -248,6 +287,24 @@ theorem skeleton_agrees_subchannel :
     Gen.Skel.skeleton "Manager.subchannel_stopProducing" = [("-", "_inbound.subchannel_stopProducing")] := by
   decide
 
+/-- the resume loop's only `break` is guarded by `p is None` on the result of `_get_next_unpaused_producer()`:
+    no registered producer object, whatever its truth value, ends the loop -/
+theorem resume_loop_ends_only_on_none : Gen.Flags.outbound_resume_loop_ends_only_on_none = true := by decide
+
+/-- the exception policy of `PullToPush._pull`, from the working tree: the `try:` around the pull
+    producer's `resumeProducing()` has exactly one handler, `except Exception:`, and that handler calls
+    `self._unregister()` (no exception class is swallowed without unregistering the adapter) -/
+theorem skeleton_agrees_pull :
+    Gen.Flags.pull_to_push_unregisters_on_any_exception = true ∧
+    Gen.Skel.skeleton "PullToPush.startStreaming" = [("-", "self._pull"), ("-", "_cooperator.cooperate"), ("if", "self.pauseProducing")] ∧
+    Gen.Skel.skeleton "PullToPush._pull" =
+      [("while/try", "_producer.resumeProducing"), ("while/except", "safe_str"), ("while/except/try", "self._unregister"),
+       ("while/except/except", "safe_str")] ∧
+    Gen.Skel.skeleton "PullToPush.stopStreaming" = [("-", "_coopTask.stop")] ∧
+    Gen.Skel.skeleton "PullToPush.pauseProducing" = [("-", "_coopTask.pause")] ∧
+    Gen.Skel.skeleton "PullToPush.resumeProducing" = [("-", "_coopTask.resume")] := by
+  decide
+
 /-! ## the environment hypothesis is needed (current code) -/
 
 /-- one producer object on two subchannels, then unregister one: `_check_invariants` fails
@@ -287,6 +344,17 @@ def ex5 : Cfg := callN ex3 .resume [] 1
 theorem ex5_reach : Reach ex5 := reach_callN ex3_reach (by decide) _ _ 1 (by decide)
 example : ex5.stack = [.loop, .ops []] ∧ ex5.o.paused = false ∧ ex5.o.unsent = [] ∧ ex5.o.pausedSet ≠ [] ∧
     1 ∈ ex5.o.allp ∧ ex5.o.allp.head? ≠ some 1 := by decide
+
+/-- hypotheses of `pull_failure_unregisters`: a pull producer (adapter 10 on subchannel 1) and a push
+    producer registered, connected; the Cooperator runs the adapter, whose write hits its locally closed
+    subchannel -/
+def ex6 : Cfg := callN (callN (callN (callN {} (.reg 1 10 false) [] 2) (.reg 2 2 true) [] 2) .use [] 9) (.pull 10) [[.failWrite, .write true]] 1
+theorem ex6_reach : Reach ex6 :=
+  reach_callN (reach_callN (reach_callN (reach_callN Reach.init rfl _ _ 2 (by decide)) (by decide) _ _ 2 (by decide))
+    (by decide) _ _ 9 (by decide)) (by decide) _ _ 1 (by decide)
+example : ex6.stack = [.pull 1 [.failWrite, .write true], .ops []] ∧ ex6.o.scp.lookup 1 = some 10 ∧
+    ex6.o.allp = [10, 2] ∧ ex6.o.paused = false ∧
+    (step ex6).o.allp = [2] ∧ (step ex6).o.pulls = [] ∧ (step ex6).stack = [.ops []] := by decide
 
 /-- Inbound: a subchannel pauses, the connection is replaced, the new one is paused at once -/
 def iex : Inb := istep (istep (istep (istep {} .use) (.pause 7)) .stop) .use
